@@ -18,7 +18,7 @@ def run(chk, tier, seed):
     dl = 5 if tier == "quick" else 6
     for mode in ("plain", "asan"):
         jobs = [dict(tag="dec%d" % a, args=["dec", a, dl, "{out}"]) for a in (0, 1, 2)]
-        refcheck.gen_and_validate(chk, "codec", jobs, "CodecTrace", mode=mode, threads=3)
+        refcheck.gen_and_validate(chk, "codec", jobs, "CodecTrace", mode=mode, threads=3, timeout=1800)
         # 3. the INI-style and Apache-style parsers on exhaustive short inputs and grammar-aware random documents
         pl = 5 if tier == "quick" else 6
         nr = 400 if tier == "quick" else 3000
@@ -30,7 +30,7 @@ def run(chk, tier, seed):
               dict(tag="inir", args=["inir", nr, seed, "{out}"], env=noleak),
               dict(tag="aconfr", args=["aconfr", nr, seed, os.path.join(wd, "scratchr-%s-%s.conf" % (mode, chk.pid)), "{out}"], env=noleak),
               dict(tag="inif", args=["inif", nr // 2, seed, os.path.join(wd, "incdir-%s-%s" % (mode, chk.pid)), "{out}"], env=noleak, max_restarts=6)]
-        refcheck.gen_and_validate(chk, "parsers", pj, "CodecTrace", mode=mode, threads=4, extra_wraps=["qsyscmd"])
+        refcheck.gen_and_validate(chk, "parsers", pj, "CodecTrace", mode=mode, threads=4, extra_wraps=["qsyscmd"], timeout=1800)
     chk.cov["exhaustive"] = not chk.infra
     chk.cov["rule"] = ("TLC runs the URL/hex/Base64 in-place decoders as cursor machines over every string up to length 4-6 on each format's significant "
                        "bytes (read cursor never past the terminator, write cursor never past the read cursor, termination); every string up to length "
